@@ -17,6 +17,7 @@
  * coq_* / parse: rendering for Model.VineData and parsing of its nat-only printers.
 """
 import ast
+from . import srcnorm as _srcnorm
 import math
 import os
 import warnings
@@ -37,7 +38,7 @@ Unsupported = P.Unsupported
 # 1. generation of the clips (fragment E)
 # ================================================================================================
 def _imports_epsilon(path):
-    mod = ast.parse(open(path).read())
+    mod = _srcnorm.parse_file(path)
     ok = False
     for n in ast.walk(mod):
         if isinstance(n, ast.ImportFrom) and n.module == 'copulas.utils':
@@ -57,7 +58,7 @@ def resolve_epsilon():
     for p in (TREE_PY, VINE_PY):
         _imports_epsilon(p)
     val = None
-    for n in ast.parse(open(UTILS_PY).read()).body:
+    for n in _srcnorm.parse_file(UTILS_PY).body:
         if isinstance(n, ast.Assign) and len(n.targets) == 1 and isinstance(n.targets[0], ast.Name) and n.targets[0].id == 'EPSILON':
             src = ast.unparse(n.value)
             if src == 'np.finfo(np.float32).eps':
